@@ -2,6 +2,9 @@ package ratelimiter
 
 import (
 	"errors"
+	"reflect"
+	"strconv"
+	"strings"
 	"net/http"
 	"net/url"
 	"time"
@@ -36,9 +39,28 @@ func vParseDuration(s string) (time.Duration, error) {
 	return vParsed[s], nil
 }
 
+func vSchemaMin(v interface{}, field string) int {
+	t := reflect.TypeOf(v)
+	for i := 0; i < t.NumField(); i++ {
+		f := t.Field(i)
+		if f.Name != field {
+			continue
+		}
+		for _, part := range strings.Split(f.Tag.Get("jsonschema"), ",") {
+			if strings.HasPrefix(part, "minimum=") {
+				if n, err := strconv.Atoi(part[len("minimum="):]); err == nil {
+					return n
+				}
+			}
+		}
+	}
+	return 0
+}
+
 func verifC13_RateLimiter() {
 	vMono = 1 << 41
-	p := &Policy{Name: "p", LimitForPeriod: int(verifInt("limitForPeriod", 1, 3))}
+	// the admissible minimum of limitForPeriod is read from the jsonschema tag of the current source
+	p := &Policy{Name: "p", LimitForPeriod: int(verifInt("limitForPeriod", int64(vSchemaMin(Policy{}, "LimitForPeriod")), 3))}
 	if verifBool("hasTimeoutDuration") {
 		p.TimeoutDuration = "T"
 	}
